@@ -474,7 +474,9 @@ def b_range(I, args, kw):
         return ("__range__", z3.IntVal(0), pyops.int_z(a[0]))
     if len(a) == 2:
         return ("__range__", pyops.int_z(a[0]), pyops.int_z(a[1]))
-    raise Unsupported("range with symbolic step")
+    if len(a) == 3 and isinstance(a[2], int) and not isinstance(a[2], bool) and a[2] > 0:
+        return ("__range__", pyops.int_z(a[0]), pyops.int_z(a[1]), a[2])      # positive concrete step
+    raise Unsupported("range with symbolic or non-positive step")
 
 
 def b_enumerate(I, args, kw):
